@@ -725,7 +725,7 @@ func randomCase(rnd *rand.Rand) mCase {
 	m := mCase{}
 	m.Req.Mask = sub(reqBits, p)
 	m.Req.Val = map[string]any{"9": pick(la...), "15": pick("empty", "d1", "d2"), "16": pick(la...), "18": pick("empty", "vs1", "vs2"),
-		"19": pick("empty", "vl1", "vl2"), "20": pick(sa...), "21": pick(la...), "23": pick(0.0, 0.0, 1.0, 5000.0, 2147483647.0, -5.0),
+		"19": pick("empty", "vl1", "vl2"), "20": pick(sa...), "21": pick(la...), "23": pick(0.0, 0.0, 40000.0, 5000.0, 2147483647.0, -5.0),
 		"25": pick(0.0, 1.0, -1.0, 2147483647.0, -2147483648.0), "26": pick("0", "1.5", "-0.0", "nan", "inf"),
 		"28": pick("zero", "prepare1", "commit1"), "29": pick("zero", "tc1", "tc2"), "30": pick(sa...)}
 	m.Resp.Mask = sub(respBits, p)
